@@ -12,7 +12,7 @@ def check():
     """returns list of dict(name, ok, detail)"""
     from schwifty import common
     from pyvc import rx
-    pat = common._clean_regex
+    pat = getattr(common, "_clean_regex", None)
     ws = re.compile(r"\s")
     is_ws = [False] * MAXCP
     up = [None] * MAXCP
@@ -28,15 +28,20 @@ def check():
                         witness=[chr(b) for b in bad[:3]]))
 
     # F1 the live pattern has the shape (class)+ and removes exactly the \s characters
-    shape = rx.removal_class(pat) is not None
-    removed = [cp for cp in range(MAXCP) if (pat.sub("", chr(cp)) == "") != is_ws[cp]]
-    out.append(dict(name="F1 common._clean_regex has the shape (class)+", ok=shape, detail=pat.pattern, witness=[]))
-    fact("F1' the class of common._clean_regex is exactly \\s (per code point)", removed)
-    # F1'' sub on a mixed string removes exactly those characters (probe of the assumed contract of Pattern.sub)
-    probe = "a\tb c d e\nf　g\x1ch"
-    exp = "".join(c for c in probe if not is_ws[ord(c)])
-    out.append(dict(name="F1'' Pattern.sub('', s) removes exactly the class characters (probe)",
-                    ok=pat.sub("", probe) == exp, detail=repr(pat.sub("", probe)), witness=[]))
+    if isinstance(pat, re.Pattern):
+        shape = rx.removal_class(pat) is not None
+        removed = [cp for cp in range(MAXCP) if (pat.sub("", chr(cp)) == "") != is_ws[cp]]
+        out.append(dict(name="F1 common._clean_regex has the shape (class)+", ok=shape, detail=pat.pattern, witness=[]))
+        fact("F1' the class of common._clean_regex is exactly \\s (per code point)", removed)
+        # F1'' sub on a mixed string removes exactly those characters (probe of the assumed contract of Pattern.sub)
+        probe = "a\tb c d e\nf　g\x1ch"
+        exp = "".join(c for c in probe if not is_ws[ord(c)])
+        out.append(dict(name="F1'' Pattern.sub('', s) removes exactly the class characters (probe)",
+                        ok=pat.sub("", probe) == exp, detail=repr(pat.sub("", probe)), witness=[]))
+    else:
+        # clean() no longer uses the module-level pattern: decide the per-character behaviour of clean itself
+        removed = [cp for cp in range(MAXCP) if (common.clean(chr(cp)) == "") != is_ws[cp]]
+        fact("F1* clean() removes a single character exactly when it is \\s (per code point; no _clean_regex found)", removed)
     # F2 every character of upper(c), c not whitespace, is a fixed point of upper and not whitespace  (=> Fix)
     bad = []
     for cp in range(MAXCP):
